@@ -81,6 +81,17 @@ pub extern "C" fn h_c04_convert() {
             check(v.is_infinite(), "infinite-stays-infinite");
         }
     }
+    // ---- the magnitude moves in the direction of the conversion factor (bit-exact consequence of monotone rounding;
+    //      in particular a subnormal magnitude is converted like any other)
+    if let Some(f) = cfg(3).map(|s| hexbits(&s)) {
+        if a.is_finite() && a != 0.0 && t == 1.0 {
+            if f >= 4.0 {
+                check(v.abs() > a.abs(), "magnitude-grows-when-converting-to-a-smaller-unit");
+            } else if f <= 0.25 {
+                check(v.abs() < a.abs(), "magnitude-shrinks-when-converting-to-a-larger-unit");
+            }
+        }
+    }
     // ---- converting the result again to the plain target unit: same magnitude, plain display
     if let Some(r2) = convert(&mut s, v, &target, 1.0, &target) {
         let v2 = r2.unsafe_value().to_f64();
